@@ -17,7 +17,7 @@ import (
 // data races (the latter through the race-detector build of the same seeds).
 
 func init() {
-	register(&Prop{ID: "C05", Run: runC05, Quick: 5000, Thorough: 150000, Level: "exploration", Race: true})
+	register(&Prop{ID: "C05", Run: runC05, Quick: 10000, Thorough: 150000, Level: "exploration", Race: true})
 }
 
 var c05Closers = []string{"close-after-writers", "Close-at-step", "CloseNow-at-step", "reader-ctx-expiry", "peer-Close-at-step"}
